@@ -163,6 +163,23 @@ def mat_inverse(T, n):
     return [a >> n for a in A]
 
 
+def loop_register_init(it):
+    """value of the register variable on entry to the generator loop: the variable updated inside the loop whose update shifts it"""
+    for loop, envs in it.loop_envs.items():
+        pre = envs[0]
+        names = set()
+        for n_ in ast.walk(loop):
+            if isinstance(n_, ast.BinOp) and isinstance(n_.op, (ast.LShift, ast.RShift)):
+                for x in ast.walk(n_.left):
+                    if isinstance(x, ast.Name):
+                        names.add(x.id)
+        assigned = {t.id for n_ in ast.walk(loop) if isinstance(n_, ast.Assign) for t in n_.targets if isinstance(t, ast.Name)}
+        cands = [nm for nm in names & assigned if nm in pre]
+        if cands:
+            return [pre[cands[0]]]
+    return None
+
+
 def run(ctx):
     pkg = ctx.pkg
     fi = pkg.func("devices.PRBS")
@@ -343,25 +360,34 @@ def run(ctx):
     outs = it.run(fi)
     exc = {(o.exc, o.conds[-1][0]) for o in outs if o.kind == "raise" and o.conds}
     ctx.check("C04.5", any(e == "TypeError" and "isinstance(len, int)" in c for e, c in exc), fi, fi.node, "PRBS: len not an int", "raises TypeError", "a non-integer len is not rejected with TypeError")
-    gl = None
-    for ifn, test, excs in find_raise_guards(fi):
-        if names_in(test) == {"len"} and isinstance(test, ast.Compare):
-            gl = (ifn, test, excs)
-    ok = gl is not None and "ValueError" in gl[2] and src_of(gl[1]).replace(" ", "") in ("len<=0", "len<1", "0>=len", "1>len")
-    ctx.check("C04.5", ok, fi, gl[0] if gl else fi.node, "PRBS: len <= 0", "raises ValueError", "a non-positive len is not rejected with ValueError")
-    # zero seed -> 1 with a warning
-    z = None
-    for n_ in body_nodes(fi):
-        if isinstance(n_, ast.If) and src_of(n_.test).replace(" ", "") in ("seed==0", "0==seed", "notseed"):
-            sets = [s for s in n_.body if isinstance(s, ast.Assign) and src_of(s.targets[0]) == "seed" and src_of(s.value) == "1"]
-            warns = [c for s in n_.body for c in ast.walk(s) if isinstance(c, ast.Call) and src_of(c.func) == "warnings.warn"]
-            z = (n_, bool(sets), warns)
-    if z is None:
-        ctx.violation("C04.5", fi, fi.node, "PRBS: zero seed", "no `seed == 0` replacement: the all-zero state locks the generator")
-    else:
-        uw = any(any(src_of(a) == "UserWarning" for a in w.args[1:]) or len(w.args) == 1 for w in z[2])
-        ctx.check("C04.5", z[1] and bool(z[2]) and uw and (loop is None or z[0].lineno < loop.lineno), fi, z[0], "PRBS: zero seed -> 1 with a warning", "seed replaced by 1, UserWarning issued",
-                  "a zero (mod 2^n) seed is not replaced by 1 with a UserWarning before the loop")
+    from ..rules import Reject, check_range_guard
+    check_range_guard(ctx, "C04.5", fi, "len", Reject(lambda x: x <= 0, [0]), "ValueError", "PRBS: len <= 0", accept_sample=[1, 2, 127], base={"order": Form.num(7)},
+                      assumptions={"seed": "notnone"}, integer=True)
+    # zero seed -> 1 with a warning: seeds congruent to 0 modulo 2^order (0, 2^order) start the register at 1 and warn; others do not
+    probs, where = [], fi.node
+    for sd, zero in ((0, True), (128, True), (5, False), (127, False)):
+        itz = Interp(pkg, param_values={"order": Form.num(7), "seed": Form.num(sd)}, assumptions={"len": "notnone"})
+        itz.run(fi)
+        warns = [r for r in itz.calls if r.callee == "warnings.warn" and r.depth == 0]
+        inits = [val for f_, stmt, name, val, conds, depth in itz.assign_log if depth == 0 and isinstance(val, Form) and val.rational() is not None and name not in ("order",)]
+        regs = [x for x in (loop_register_init(itz) or [])]
+        reg0 = regs[0] if regs else None
+        if zero:
+            if not warns:
+                probs.append(f"seed={sd} (0 mod 2^7) gives no warning")
+            else:
+                where = warns[0].node
+                cat = warns[0].args[1] if len(warns[0].args) > 1 else warns[0].kwargs.get("category")
+                if cat is not None and "UserWarning" not in repr(cat):
+                    probs.append(f"seed={sd}: warning category {cat!r}, documented UserWarning")
+            if reg0 is not None and reg0 != Form.num(1):
+                probs.append(f"seed={sd} (0 mod 2^7) starts the register at {reg0!r}, not 1: the all-zero state locks the generator")
+        else:
+            if warns:
+                probs.append(f"seed={sd} warns although it is not 0 mod 2^7")
+            if reg0 is not None and reg0 != Form.num(sd % 128):
+                probs.append(f"seed={sd} starts the register at {reg0!r}, not seed mod 2^7")
+    ctx.check("C04.5", not probs, fi, where, "PRBS: zero seed -> 1 with a warning", "seed = 0 mod 2^order replaced by 1 with a UserWarning; other seeds used as given (classes 0, 2^n, interior, all-ones)", "; ".join(probs[:3]))
     ctx.require_min("C04.1", 7)
     ctx.require_min("C04.2", 7)
     ctx.require_min("C04.3", 21)
